@@ -1,7 +1,7 @@
 //! C16 — concurrent scanner threads never tear or mix output records, and never deadlock.
 //!
 //! The emitted program (text produced by the real parse/compile/scheme) is executed by the stub
-//! runtime of `eval.rs` on 2..4 (sometimes up to 17) scanner threads under a scheduler the simulator owns. The oracle
+//! runtime of `eval.rs` on 2..4 (sometimes up to 40) scanner threads under a scheduler the simulator owns. The oracle
 //! compares what arrives on every destination with the sequential run of the same program.
 
 use crate::coord::{self, BlockResult, Plan};
@@ -314,10 +314,15 @@ fn workload_inner(rng: &mut Rng, tier: Tier, volume: bool) -> Workload {
     let wide = !volume && rng.chance(1, 12);
     let n_files = if wide { rng.range(8, 40) as usize } else { rng.range(1, 8) as usize };
     let files: Vec<FileRec> = (0..n_files).map(|i| gen_file(rng, i, cfg.pattern_pool)).collect();
-    let threads = if wide { *rng.pick(&[5usize, 6, 8, 9, 12, 16, 17]) } else { *rng.pick(&[2usize, 2, 3, 3, 4]) };
+    // (28 entries is where a Guile hash table keyed by the scanner thread is resized for the first time)
+    let threads = if wide { *rng.pick(&[5usize, 6, 8, 9, 12, 16, 17, 28, 29, 33, 40]) } else { *rng.pick(&[2usize, 2, 3, 3, 4]) };
+    let n_files = if threads >= 28 { n_files.max(threads + rng.range(0, 12) as usize) } else { n_files };
+    let files: Vec<FileRec> = if files.len() == n_files { files } else { (0..n_files).map(|i| gen_file(rng, i, cfg.pattern_pool)).collect() };
     let mut partition = vec![vec![]; threads];
     for f in 0..n_files {
-        partition[rng.usize_below(threads)].push(f);
+        // a very wide workload gives every scanner thread something to do
+        let t = if threads >= 28 && f < threads { f } else { rng.usize_below(threads) };
+        partition[t].push(f);
     }
     Workload {
         expr,
@@ -1427,7 +1432,7 @@ pub fn check(tier: Tier) -> i32 {
         wall_s: wall,
         evaluations: executions,
         distinct_nontrivial: distinct,
-        rule: "One case = one execution of one generated program (1-14 output actions of every kind over relative/absolute/aliased destinations, framed or plain mode, optional -quit, 0-130 tests in front; probe workloads with -ls/-fls or \\c formats; one workload in 400 is a volume workload of 300-1200 files and 100-400 KiB) on 2-4 scanner threads over 1-8 files (one workload in 12: 5-17 threads over 8-40 files) under one seeded schedule (Random, Sticky or PCT strategy; scheduling points at every lock/unlock, every port operation, every access to an assigned variable or hash table, and between files; displays split into up to 3 chunk writes; ports unbuffered or unsynchronised block-buffered with capacity 8-4096; large writes may stall). The final stream of every destination is compared, as a multiset of frames or lines, with sequential scans of the same program. Non-trivial = the event trace switches between scanner threads at least once. distinct_nontrivial counts distinct (program text, lock/unlock/write/file event trace) pairs among them, i.e. distinct interleavings reached.",
+        rule: "One case = one execution of one generated program (1-14 output actions of every kind over relative/absolute/aliased destinations, framed or plain mode, optional -quit, 0-130 tests in front; probe workloads with -ls/-fls or \\c formats; one workload in 400 is a volume workload of 300-1200 files and 100-400 KiB) on 2-4 scanner threads over 1-8 files (one workload in 12: 5-40 threads over 8-52 files) under one seeded schedule (Random, Sticky or PCT strategy; scheduling points at every lock/unlock, every port operation, every access to an assigned variable or hash table, and between files; displays split into up to 3 chunk writes; ports unbuffered or unsynchronised block-buffered with capacity 8-4096; large writes may stall). The final stream of every destination is compared, as a multiset of frames or lines, with sequential scans of the same program. Non-trivial = the event trace switches between scanner threads at least once. distinct_nontrivial counts distinct (program text, lock/unlock/write/file event trace) pairs among them, i.e. distinct interleavings reached.",
         samples: red.samples.clone(),
         extra,
         assumptions: vec![
@@ -1437,7 +1442,7 @@ pub fn check(tier: Tier) -> i32 {
             "A4 (make-printer port mutex term) = (lambda (s) (with-mutex mutex (display s port) (when term (display term port))))".into(),
             "A5 lipe-scan evaluates the policy once per file on T threads, a file entirely on one thread; lipe-scan-break stops new files, running ones complete".into(),
             "A6 ports opened on one file name share one destination".into(),
-            "A7 hash tables, vectors and assigned variables take no lock of their own (Guile manual: hash tables are not thread-safe); updating an existing key is one store, inserting a new key is read chain / store new head, so two unsynchronised insertions into one bucket (1, 2 or 7 buckets per workload) can lose one".into(),
+            "A7 hash tables, vectors and assigned variables take no lock of their own (Guile manual: hash tables are not thread-safe); updating an existing key is one store, inserting a new key is read chain / store new head, so two unsynchronised insertions into one bucket (1, 2 or 7 buckets per workload) can lose one; the insertion that takes a table to 28, 55, 102, ... entries resizes it, and while it does lookups by other threads find nothing".into(),
             "port I/O errors and asynchronous thread cancellation are not injected (outside what the property states)".into(),
         ],
         violations,
@@ -1534,7 +1539,7 @@ fn selftest_workload(threads: usize, files: usize) -> Workload {
 
 fn wrap_program(defs: &str, policy: &str) -> String {
     format!(
-        "(use-modules (lipe) (lipe find))\n(let* ({defs})\n (dynamic-wind (lambda () #t) (lambda () (lipe-scan \"/dev/x\" (lipe-getopt-client-mount-path) (lambda () {policy}) (lipe-getopt-required-attrs) 2)) (lambda () #t)))"
+        "(use-modules (lipe) (lipe find))\n(let* ({defs})\n (dynamic-wind (lambda () #t) (lambda () (lipe-scan \"/dev/x\" (lipe-getopt-client-mount-path) (lambda () {policy}) (lipe-getopt-required-attrs) (lipe-getopt-thread-count))) (lambda () #t)))"
     )
 }
 
@@ -1668,6 +1673,43 @@ pub fn selftests() -> Vec<(&'static str, bool, String)> {
         "per-thread pending strings in a hash table, table only touched under the lock: nothing lost",
         &w3,
         wrap_program(&pending(true), "(call-with-relative-path pr)"),
+        None,
+        3000,
+        None,
+    );
+    // per-thread slots in a table keyed by the thread; 29 threads: the 28th registration resizes the table
+    let w29 = selftest_workload(29, 58);
+    let slots = |locked_lookup: bool| {
+        let register = "(let ((s (cons 0 \"\"))) (hashq-set! slots (current-thread) s) s)";
+        let slot = if locked_lookup {
+            format!("(with-mutex m (or (hashq-ref slots (current-thread)) {register}))")
+        } else {
+            format!("(or (hashq-ref slots (current-thread)) (with-mutex m {register}))")
+        };
+        format!(
+            "(p (current-output-port)) (m (make-mutex)) (slots (make-hash-table)) (slot (lambda () {slot})) (pr (lambda (l) (let ((s (slot))) (set-cdr! s (string-append (cdr s) l (string #\\x0a)))) (let ((s (slot))) (with-mutex m (display (cdr s) p)) (set-cdr! s \"\"))))"
+        )
+    };
+    case(
+        "per-thread slots registered under the lock but looked up without it, 29 threads: a lookup during the resize loses records",
+        &w29,
+        wrap_program(&slots(false), "(call-with-relative-path pr)"),
+        None,
+        4000,
+        Some(&["records-lost-or-altered"]),
+    );
+    case(
+        "per-thread slots registered and looked up under the lock, 29 threads: nothing lost",
+        &w29,
+        wrap_program(&slots(true), "(call-with-relative-path pr)"),
+        None,
+        1500,
+        None,
+    );
+    case(
+        "per-thread slots looked up without the lock, 3 threads: the table never grows, nothing lost",
+        &w3,
+        wrap_program(&slots(false), "(call-with-relative-path pr)"),
         None,
         3000,
         None,
